@@ -238,6 +238,9 @@ var fxJSONSamples = []string{
 	`{bad`,
 	``,
 	`[1,2`,
+	`{"a":1}}`,
+	`[1,2] x`,
+	`1 2`,
 }
 
 // VerifFxReturn: MODE 0 len(e), MODE 1 load_json(e); observed through probe(...).
